@@ -250,7 +250,9 @@ func edCase(a *edAPI, k, mi, mlen int) {
 	// including inadmissible ones (ctx variant with "", pure with a context)
 	var vmodes []edMode
 	for _, v := range a.variants {
-		for _, c := range append(append([]string{}, ctxs...), string(lib.FlipBit([]byte(c1), 0)), c255[:254], c1+"\x00") {
+		for _, c := range append(append([]string{}, ctxs...), string(lib.FlipBit([]byte(c1), 0)), c255[:254], c1+"\x00",
+			// the longest context altered in its last / first octet only
+			c255[:254]+string([]byte{c255[254] ^ 0x01}), string([]byte{c255[0] ^ 0x80})+c255[1:]) {
 			if v == "pure" && a.name == "ed25519" && c != "" {
 				continue // ed25519.Verify takes no context argument
 			}
